@@ -67,6 +67,17 @@ func pipelineDesign(c *ev.Ctx) *tlc.Result {
 // runPipelineBehaviours executes behaviours on the real pipeline and has TLC validate the recorded traces.
 // filter selects which behaviours count as non-trivial for the property at hand.
 func runPipelineBehaviours(c *ev.Ctx, unpubOn bool, behaviours [][]pipe.Step, nontrivial func([]pipe.Step) bool, violationClass string) {
+	cfg := "PipelineTrace.cfg"
+	if !unpubOn {
+		cfg = "PipelineTraceNoUnpub.cfg"
+	}
+	runPipelineBehavioursCfg(c, unpubOn, behaviours, nontrivial, violationClass, []string{cfg}, nil)
+}
+
+// runPipelineBehavioursCfg executes the behaviours on the real pipeline once and validates the recorded traces against
+// each of the given trace configurations in turn.  fixedClass[i] != "" gives the exact violation class of a rejection
+// under cfgs[i] (instead of violationClass + ":" + the rejected event).
+func runPipelineBehavioursCfg(c *ev.Ctx, unpubOn bool, behaviours [][]pipe.Step, nontrivial func([]pipe.Step) bool, violationClass string, cfgs []string, fixedClass []string) {
 	var all strings.Builder
 	var ends []int
 	total := 0
@@ -132,59 +143,61 @@ func runPipelineBehaviours(c *ev.Ctx, unpubOn bool, behaviours [][]pipe.Step, no
 			c.AddSample(map[string]interface{}{"kind": "Pipeline.tla behaviour executed on the real pipeline", "unpublished_store": unpubOn, "behaviour": h, "events": p.Events})
 		}
 	}
-	cfg := "PipelineTrace.cfg"
-	if !unpubOn {
-		cfg = "PipelineTraceNoUnpub.cfg"
-	}
-	validate := func(nd string) (*tlc.Result, bool) {
-		r, err := tlc.Run(tlc.Opts{SpecDir: specDir(), Module: "PipelineTrace", Config: cfg, WorkDir: c.Work, Workers: 1, Timeout: 30 * time.Minute,
-			ExtraFiles: map[string]string{"pipeline_trace.ndjson": nd}})
-		if err != nil {
-			if r != nil && (strings.Contains(r.Output, "TraceAccepted") || strings.Contains(r.Output, "ostcondition")) {
-				return r, false
+	for ci, cfg := range cfgs {
+		validate := func(nd string) (*tlc.Result, bool) {
+			r, err := tlc.Run(tlc.Opts{SpecDir: specDir(), Module: "PipelineTrace", Config: cfg, WorkDir: c.Work, Workers: 1, Timeout: 30 * time.Minute,
+				ExtraFiles: map[string]string{"pipeline_trace.ndjson": nd}})
+			if err != nil {
+				if r != nil && (strings.Contains(r.Output, "TraceAccepted") || strings.Contains(r.Output, "ostcondition")) {
+					return r, false
+				}
+				_ = os.WriteFile(filepath.Join(ev.Root, ".work", "failed_pipeline_trace.ndjson"), []byte(nd), 0o644)
+				ev.Fatal("TLC pipeline trace validation (trace kept in .work/failed_pipeline_trace.ndjson): %v", err)
 			}
-			_ = os.WriteFile(filepath.Join(ev.Root, ".work", "failed_pipeline_trace.ndjson"), []byte(nd), 0o644)
-			ev.Fatal("TLC pipeline trace validation (trace kept in .work/failed_pipeline_trace.ndjson): %v", err)
+			return r, r.InvariantViolated == ""
 		}
-		return r, r.InvariantViolated == ""
-	}
-	res, ok := validate(all.String())
-	c.Cov.States += res.Distinct
-	c.Cov.Transitions += res.Generated
-	c.Cov.TracesValidatedAgainstImpl += int64(len(behaviours))
-	c.Cov.Evaluations += int64(total)
-	c.Cov.DistinctNontrivial += int64(nt)
-	if !ok {
-		lines := strings.SplitAfter(all.String(), "\n")
-		lo, hi := 0, len(ends)-1
-		for lo < hi {
-			mid := (lo + hi) / 2
-			if _, ok := validate(strings.Join(lines[:ends[mid]], "")); ok {
-				lo = mid + 1
-			} else {
-				hi = mid
+		res, ok := validate(all.String())
+		c.Cov.States += res.Distinct
+		c.Cov.Transitions += res.Generated
+		c.Cov.TracesValidatedAgainstImpl += int64(len(behaviours))
+		c.Cov.Evaluations += int64(total)
+		c.Cov.DistinctNontrivial += int64(nt)
+		if !ok {
+			lines := strings.SplitAfter(all.String(), "\n")
+			lo, hi := 0, len(ends)-1
+			for lo < hi {
+				mid := (lo + hi) / 2
+				if _, ok := validate(strings.Join(lines[:ends[mid]], "")); ok {
+					lo = mid + 1
+				} else {
+					hi = mid
+				}
 			}
-		}
-		start := 0
-		if lo > 0 {
-			start = ends[lo-1]
-		}
-		// find the first rejected event of that behaviour: longest accepted prefix
-		tr := lines[start:ends[lo]]
-		bad := len(tr) - 1
-		for k := 1; k <= len(tr); k++ {
-			if _, ok := validate(strings.Join(tr[:k], "")); !ok {
-				bad = k - 1
-				break
+			start := 0
+			if lo > 0 {
+				start = ends[lo-1]
 			}
+			// find the first rejected event of that behaviour: longest accepted prefix
+			tr := lines[start:ends[lo]]
+			bad := len(tr) - 1
+			for k := 1; k <= len(tr); k++ {
+				if _, ok := validate(strings.Join(tr[:k], "")); !ok {
+					bad = k - 1
+					break
+				}
+			}
+			evName := "end"
+			var e map[string]interface{}
+			if bad < len(tr) && json.Unmarshal([]byte(tr[bad]), &e) == nil {
+				evName, _ = e["ev"].(string)
+			}
+			class := violationClass + ":" + evName
+			if ci < len(fixedClass) && fixedClass[ci] != "" {
+				class = fixedClass[ci]
+			}
+			c.Violation(class, map[string]interface{}{"behaviour": behaviours[lo], "trace": tr, "first_rejected_event_index": bad, "first_rejected_event": e, "trace_configuration": cfg,
+				"tlc": lastN(res.Output, 15), "note": "the real pipeline's reply / projected state after this event is not what Pipeline.tla allows"})
 		}
-		evName := "end"
-		var e map[string]interface{}
-		if bad < len(tr) && json.Unmarshal([]byte(tr[bad]), &e) == nil {
-			evName, _ = e["ev"].(string)
-		}
-		c.Violation(violationClass+":"+evName, map[string]interface{}{"behaviour": behaviours[lo], "trace": tr, "first_rejected_event_index": bad, "first_rejected_event": e,
-			"tlc": lastN(res.Output, 15), "note": "the real pipeline's reply / projected state after this event is not what Pipeline.tla allows"})
 	}
 }
 
